@@ -261,7 +261,11 @@ def main():
                 D.lst(D.pair(D.string(k), coq_default(d)) for k, d in l["kwonly"])))
     if "--json" in sys.argv:
         import json
-        ini = lambda c: [[k, v] for k, v in inspect.signature(c.__init__).parameters["initial_context"].default.items()]
+        def ini(c):
+            # None when the default is not a plain dict (the Coq unit then fails closed; the harness goes on
+            # with the documented defaults so that it can still look for a failing input)
+            d = inspect.signature(c.__init__).parameters["initial_context"].default
+            return [[k, v] for k, v in d.items()] if isinstance(d, dict) else None
         json.dump(dict(signatures=jsigs, mc_initial=ini(MachineController), bmp_initial=ini(BMPController)),
                   sys.stdout)
         return
